@@ -192,6 +192,10 @@ def run(prog, rep):
                     "merge adds clone()s of the referenced children and unmerge finds them again through contains(), i.e. by name: new_id(), "
                     "which clone calls, must not touch the name")
 
+    import_verdicts(prog, rep, "C11", ("EQ-1",), "EQ-1",
+                    "`cleaning restores the document` is a statement about ==: an __eq__ that leaves out link / include (or any content attribute) "
+                    "calls a document restored that is not")
+
     # --------------------------------------------------------------- CACHE-2
     cache_key_rule(prog, rep, "CACHE-2")
 
